@@ -29,6 +29,8 @@ def run(check: Check, repo: Repo, tier: str) -> None:
     M.flag_thread(check, repo)
     M.cycle_guard(check, repo)
     M.arg_normalise(check, repo)
+    M.recorded_means_compared(check, repo)
+    M.all_pairs(check, repo)
     S.wrapper_pairing(check, repo, [(M.MOD, "do_types_conflict")])
     from rules import kind_tables as KT
     KT.kind_table(check, repo, repo.func(M.MOD, "do_types_conflict"), "type1", "type2",
